@@ -216,6 +216,7 @@ type Spec struct {
 	ModIBC    bool
 	ExtChains []string
 	Mod2      []string // optional second module-owned token's chains (nil = none)
+	ExtFalse  bool     `json:",omitempty"` // the externally-owned token returns false instead of reverting (falsetoken.go)
 }
 
 var (
@@ -241,7 +242,15 @@ func NewWorld(c *lib.Chain, sp Spec, hseed int64) *World {
 	lib.Must(err)
 	w.Toks = append(w.Toks, mod)
 	owner := lib.EthKey(c.Seed, "extowner", 0)
-	ext, err := c.SetupExternal("EXT", 2, owner, sp.ExtChains)
+	var ext *lib.Token
+	if sp.ExtFalse {
+		at := common.HexToAddress("0xE200000000000000000000000000000000000e20")
+		c.EnsureAccount(c.Ctx, owner.Acc())
+		c.InstallCode(c.Ctx, at, falseTokenCode("EXT token", "EXT"))
+		ext, err = c.SetupExternalAt("EXT", 2, owner, at, sp.ExtChains)
+	} else {
+		ext, err = c.SetupExternal("EXT", 2, owner, sp.ExtChains)
+	}
 	lib.Must(err)
 	w.Toks = append(w.Toks, ext)
 	if sp.Mod2 != nil {
@@ -346,14 +355,14 @@ func (w *World) execute(c int, n uint64) error {
 }
 
 // armReentrant gives the receiver contract cRe the runtime code (hand assembled, no solc in the sandbox)
-//     if (token.balanceOf(this) >= bound) return;
+//     if (token.balanceOf(holder) >= bound) return;
 //     crosschainPrecompile.call(executeClaim(chain, nonce));       // result ignored
 // for the inbound bridge call with event nonce `nonce` carrying toks.  bound = the contract's current ERC-20 balance of
 // the first token with a positive amount + twice that amount: the callback of the first execution (balance + amount)
 // re-enters, the callback of a nested execution (if the application ever lets one happen) does not — the recursion is
 // bounded whatever the application does.  On the unchanged application the nested executeClaim is refused ("claim not
 // found": the pending record is deleted before the handler runs), the refusal is swallowed and the callback succeeds.
-func (w *World) armReentrant(c int, nonce uint64, toks [][2]int64) {
+func (w *World) armReentrant(c int, nonce uint64, toks [][2]int64, holder int) {
 	code := okCode
 	for _, p := range toks {
 		tk := w.Toks[p[0]]
@@ -362,8 +371,9 @@ func (w *World) armReentrant(c int, nonce uint64, toks [][2]int64) {
 		}
 		input, err := precompile.NewExecuteClaimMethod(nil).PackInput(crosschaintypes.ExecuteClaimArgs{Chain: chainName(c), EventNonce: new(big.Int).SetUint64(nonce)})
 		lib.Must(err)
-		bound := new(big.Int).Add(w.C.ERC20BalanceOf(w.C.Ctx, tk.ERC20, w.Hex(cRe)), big.NewInt(2*p[1]))
-		balanceOf := append([]byte{0x70, 0xa0, 0x82, 0x31}, common.LeftPadBytes(w.Hex(cRe).Bytes(), 32)...)
+		// (holder = the account the call credits: cRe itself, or the sender's account under the send-call-to memo)
+		bound := new(big.Int).Add(w.C.ERC20BalanceOf(w.C.Ctx, tk.ERC20, w.Hex(holder)), big.NewInt(2*p[1]))
+		balanceOf := append([]byte{0x70, 0xa0, 0x82, 0x31}, common.LeftPadBytes(w.Hex(holder).Bytes(), 32)...)
 		a := &lib.Asm{}
 		a.StoreMem(0, balanceOf)
 		a.PushU(32).PushU(0).PushU(36).PushU(0).PushAddr(tk.ERC20).Op(vm.GAS, vm.STATICCALL, vm.POP)
